@@ -405,6 +405,12 @@ pub fn families(tier: Tier) -> Vec<Box<dyn Family>> {
     let lv = if th { 5 } else { 4 };
     v.push(Box::new(Strings { name: format!("val token strings <= {lv}, blank separated"), val: true, tokens: val_tokens.clone(), sep: " ", space: StringSpace::new(val_tokens.len(), lv) }));
     v.push(Box::new(Strings { name: format!("val token strings <= {}, concatenated", lv - 1), val: true, tokens: val_tokens.clone(), sep: "", space: StringSpace::new(val_tokens.len(), lv - 1) }));
+    // long and multi-byte tokens
+    let odd_tokens = sv(&["(", ")", ",", "x", "+", "sin", "abcdefghijklmnopqrstuvwxyz_0123456789", "123456789012345678901234567890.5", "\u{1F44D}", "{\u{1F44D} x}", "\u{3c9}", "1e5", "  ", "\t", "\u{391}\u{3b2}", "max"]);
+    let lo = if th { 5 } else { 4 };
+    v.push(Box::new(Strings { name: format!("f64 long/multi-byte token strings <= {lo}, blank separated"), val: false, tokens: odd_tokens.clone(), sep: " ", space: StringSpace::new(odd_tokens.len(), lo) }));
+    v.push(Box::new(Strings { name: format!("f64 long/multi-byte token strings <= {lo}, concatenated"), val: false, tokens: odd_tokens.clone(), sep: "", space: StringSpace::new(odd_tokens.len(), lo) }));
+    v.push(Box::new(Strings { name: format!("val long/multi-byte token strings <= {}, concatenated", lo - 1), val: true, tokens: odd_tokens.clone(), sep: "", space: StringSpace::new(odd_tokens.len(), lo - 1) }));
     // edits of well-formed texts
     let f64_bases: Vec<Vec<String>> = [
         "x", "sin ( x )", "- x", "x + 1", "max ( x , 1 )", "x * ( y - 2 )", "sin ( x + 1 ) * 2", "- ( x ^ 2 ) / y", "max ( 1 , max ( x , y ) )", "x + 1 + 2 * y - 3", "{y} * x / ( 1 - x )",
